@@ -75,7 +75,8 @@ TMon(e) ==
      ELSE inside' = [inside EXCEPT ![e.k] = SelectSeq(@, LAMBDA x : x.p # e.p)]
   /\ UNCHANGED allvars
 
-TEnd(e) ==   \* end of a stress run: nothing held, nothing kept
+TEnd(e) ==   \* end of a free-running run: everybody came back, nothing held, nothing kept
+  /\ e.stuck = 0
   /\ \A k \in Keys : inside[k] = <<>>
   /\ e.entries = 0
   /\ UNCHANGED <<allvars, inside>>
